@@ -106,6 +106,15 @@ end
 def conOf : Ty → Ty | param _ c _ _ => c | t => t
 def argsOf : Ty → List Ty | param _ _ as _ => as | _ => []
 
+/-- `SuperInst c as c' as'`: going by the class declarations alone, the instance `c'<as'>` lies
+    above the instance `c<as>` (reflexive-transitive): if `c'` declares the supertype `c''<bs>`
+    then `c''<bs[parameters of c' ↦ as']>` lies above as well -/
+inductive SuperInst (c : Ty) (as : List Ty) : Ty → List Ty → Prop
+  | refl : SuperInst c as c as
+  | step {c' : Ty} {as' : List Ty} {nm : String} {c'' : Ty} {bs ss : List Ty} :
+      SuperInst c as c' as' → param nm c'' bs ss ∈ conSups c' →
+      SuperInst c as c'' (substSL (TMap.mk (conParams c') as') bs)
+
 /-- the map binds every type variable that is `==` to a member of `ps` -/
 def TMap.covers (σ : TMap) (ps : List Ty) : Prop :=
   ∀ x, memBeq x ps = true → (σ.get x).isSome = true
